@@ -2,7 +2,7 @@
 # tools/run_seeded.sh [seed-id ...]
 # For each seeded change: makes a scratch worktree of /repo's HEAD (outside /repo and
 # /verif), applies the change there, runs the quick checks of the properties in
-# CHECKS (default: the property the seed targets, plus C20) against that tree with a
+# CHECKS (default: the property the seed targets) against that tree with a
 # scratch output directory, records which checks raised a VIOLATION in
 # /verif/seeded/<id>/detection.json, and removes the worktree.
 # (Same as `git -C /repo apply; ./check; git -C /repo checkout -- .`, but leaves
@@ -19,7 +19,7 @@ for id in $ids; do
   ln -s /verif/ledger "$sv/ledger"; [ -f /verif/known_findings.jsonl ] && cp /verif/known_findings.jsonl "$sv/"
   if ! git -C "$wt" apply "/verif/seeded/$id/patch.diff"; then echo "$id: patch does not apply"; git -C /repo worktree remove --force "$wt"; rm -rf "$sv"; continue; fi
   target=$(python3 -c "import json;print(json.load(open('/verif/seeded/$id/meta.json'))['property'])")
-  props=${CHECKS:-"$target C20"}
+  props=${CHECKS:-"$target"}
   res=""
   for p in $props; do
     case " $claimed " in *" $p "*) ;; *) res="$res $p:-1:0"; continue;; esac
